@@ -339,10 +339,10 @@ package recordio
 
 // Sequential reader constructor and its options as callers see them (not verified against the bodies: functional options).
 //@ func ReaderPath
-//@   assumed
+//@   props C01 C02 C11
 //@   modifies nothing
 //@ func ReaderBufferSizeBytes
-//@   assumed
+//@   props C01 C02 C11
 //@   modifies nothing
 //@ func NewFileReader
 //@   assumed
@@ -352,10 +352,10 @@ package recordio
 //@   modifies nothing
 
 //@ func CompressionType
-//@   assumed
+//@   props C01 C02 C11
 //@   modifies nothing
 //@ func DirectIO
-//@   assumed
+//@   props C01 C02 C11
 //@   modifies nothing
 //@ func IsDirectIOAvailable
 //@   assumed
